@@ -506,6 +506,109 @@ func runAbortedHandshakes(rec *vcommon.Rec, sc *scenario) {
 	}
 }
 
+// runUpstreamAway: growth over local connections that cannot be served because the only upstream is down for a while
+// (each must be ended by the client), with served connections before and after each outage. Two outages of different
+// length; what is held after the second must not exceed what was held after the first.
+func runUpstreamAway(rec *vcommon.Rec, sc *scenario) {
+	sig := "growth:" + sc.Carrier + ":" + sc.Mode
+	ep, err := e2e.NewC16Endpoint(sc.Carrier, "E0", true)
+	if err != nil {
+		rec.Inconclusive(sig+":fixture: "+err.Error(), sc)
+		return
+	}
+	defer ep.Close()
+	cl, err := e2e.NewC16Client([]string{ep.URL()}, "", false)
+	if err != nil {
+		rec.Violation(sig+":setup-failed", sc, err.Error())
+		return
+	}
+	defer cl.Close()
+	n := 0
+	attempt := func(mustServe bool) *e2e.Failure {
+		n++
+		app, err := cl.Dial()
+		if err != nil {
+			return &e2e.Failure{Kind: "dial-failed", Info: map[string]interface{}{"err": err.Error()}}
+		}
+		defer app.Close()
+		tag := uint64(sc.Seed)<<20 + uint64(n)
+		var hdr, banner [8]byte
+		binary.BigEndian.PutUint64(hdr[:], tag)
+		app.Write(hdr[:])
+		var rerr error
+		got := e2e.Go(func() { _, rerr = io.ReadFull(app, banner[:]) })
+		switch e2e.Wait(got) {
+		case e2e.Stalled:
+			kind := "local-connection-neither-served-nor-ended-while-the-upstream-is-down"
+			if mustServe {
+				kind = "local-connection-not-served-after-the-upstream-came-back"
+			}
+			return &e2e.Failure{Kind: kind, Info: map[string]interface{}{"attempt": n, "goroutines": e2e.Clip(e2e.Stacks(), 30000)}}
+		case e2e.Inconclusive:
+			return &e2e.Failure{Kind: "busy", Inconclusive: true}
+		}
+		e2e.Bump(1)
+		if mustServe {
+			if rerr != nil {
+				return &e2e.Failure{Kind: "local-connection-not-served-after-the-upstream-came-back", Info: map[string]interface{}{"attempt": n, "err": rerr.Error()}}
+			}
+			tgt, o := ep.Target.NextTagged(tag)
+			if o != e2e.Done {
+				return &e2e.Failure{Kind: "target-side-not-found", Inconclusive: o == e2e.Inconclusive}
+			}
+			defer tgt.Close()
+			return e2e.Duplex(app, tgt, &e2e.Stream{Key: tag*4 + 1, Len: 2000}, &e2e.Stream{Key: tag*4 + 2, Len: 2000}, "c2t", "t2c", nil)
+		}
+		return nil
+	}
+	cycle := func(failed int) *e2e.Failure {
+		for i := 0; i < 4; i++ {
+			if f := attempt(true); f != nil {
+				return f
+			}
+		}
+		ep.StopServer()
+		ep.CutAll(true)
+		for i := 0; i < failed; i++ {
+			if f := attempt(false); f != nil {
+				return f
+			}
+		}
+		if err := ep.RestartServer(); err != nil {
+			return &e2e.Failure{Kind: "fixture: restart failed: " + err.Error(), Inconclusive: true}
+		}
+		for i := 0; i < 4; i++ {
+			if f := attempt(true); f != nil {
+				return f
+			}
+		}
+		return nil
+	}
+	if f := cycle(sc.N1 / 5); f != nil {
+		report(rec, sc, sig+":outage1", f)
+		return
+	}
+	p1, q1 := quiesce(func(p probe) bool { return p.Pipes == 0 }, 30*time.Second)
+	if f := cycle(sc.N2 / 5); f != nil {
+		report(rec, sc, sig+":outage2", f)
+		return
+	}
+	p2, q2 := quiesce(func(p probe) bool { return p.Pipes == 0 }, 30*time.Second)
+	rec.Case(fmt.Sprintf("%v", *sc), true)
+	rec.Stat("local_connections_during_outages", int64(sc.N1/5+sc.N2/5))
+	rec.Seen("scenario", sc.Kind+"/"+sc.Carrier+"/"+sc.Mode)
+	rec.Sample(map[string]interface{}{"scenario": sc, "after_outage1": describe(p1), "after_outage2": describe(p2), "quiescent": []bool{q1, q2}})
+	const slack = 4
+	for c, k := range p2.G {
+		if d := k - p1.G[c]; d > slack {
+			rec.Violation(fmt.Sprintf("%s:goroutines-grow:%s", sig, c), sc, map[string]interface{}{"after_outage1": describe(p1), "after_outage2": describe(p2)})
+		}
+	}
+	if d := p2.FDs - p1.FDs; d > slack {
+		rec.Violation(sig+":descriptors-grow", sc, map[string]interface{}{"after_outage1": describe(p1), "after_outage2": describe(p2)})
+	}
+}
+
 // runForwarded: growth over logical connections that the client serves from its listener's forward address (no upstream
 // involved). Each connection moves keyed data both ways; then one side shuts its sending side down, the other sees
 // end-of-stream and closes, and the first side's read must end, too. Sockets, goroutines and copy loops must not grow.
@@ -827,6 +930,9 @@ func scenarios(rec *vcommon.Rec) []*scenario {
 			add(scenario{Kind: "growth", Carrier: c, Mode: m, N1: n1, N2: n2})
 		}
 	}
+	// the only upstream is away for a while
+	add(scenario{Kind: "growth", Carrier: "tcp", Mode: "upstream-away", N1: n1, N2: n2})
+	add(scenario{Kind: "growth", Carrier: "ws", Mode: "upstream-away", N1: n1, N2: n2})
 	// peers that leave during the handshake
 	add(scenario{Kind: "growth", Carrier: "tcp", Mode: "aborted-handshakes", N1: n1, N2: n2})
 	add(scenario{Kind: "growth", Carrier: "unix", Mode: "aborted-handshakes", N1: n1, N2: n2})
@@ -857,7 +963,9 @@ func TestVerifC14(t *testing.T) {
 	defer rec.Close()
 	run := func(sc *scenario) {
 		rec.Mark(sc)
-		if sc.Kind == "growth" && sc.Mode == "aborted-handshakes" {
+		if sc.Kind == "growth" && sc.Mode == "upstream-away" {
+			runUpstreamAway(rec, sc)
+		} else if sc.Kind == "growth" && sc.Mode == "aborted-handshakes" {
 			runAbortedHandshakes(rec, sc)
 		} else if sc.Kind == "growth" && strings.HasPrefix(sc.Mode, "forwarded-") {
 			runForwarded(rec, sc)
